@@ -224,13 +224,16 @@ def classLex (c : ClassDecl) : List Lexeme :=
   tmplLex c.tmpl ++ (if c.isVirtual then [.word "virtual"] else []) ++
     .word "class" :: .word c.name :: (parentLex c.parent ++ .sym "{" :: (membersLex c.members ++ [.sym "}", .sym ";"]))
 
+/-- `: Base` of a forward declaration -/
+def fwdParentLex : Option Typename → List Lexeme
+  | none => []
+  | some p => .sym ":" :: tyLex (tnToTy p)
+
 mutual
   def declLex : Decl → List Lexeme
     | .fwd virt tn parent =>
       (if virt then [.word "virtual"] else []) ++ .word "class" :: (namesLexPlain (tn.namespaces ++ [tn.name]) ++
-        (match parent with
-          | none => []
-          | some p => .sym ":" :: tyLex (tnToTy p)) ++ [.sym ";"])
+        fwdParentLex parent ++ [.sym ";"])
     | .incl h => [.atom (.kw "#include") "#include" "#include" "", .sym "<", .atom .header h h "", .sym ">"]
     | .cls c => classLex c
     | .typedef tn name => .word "typedef" :: (tyLex (tnToTy tn) ++ [.word name, .sym ";"])
